@@ -60,7 +60,7 @@ THEOREMS = ["ElfioVerif.C16.fail_sticky", "ElfioVerif.C16.write_fail_sticky", "E
             "ElfioVerif.C16.save_unlimited_true", "ElfioVerif.C16.save_null_header",
             "ElfioVerif.C16.save_budget_witness", "ElfioVerif.C16.saveWrite_eq_ops", "ElfioVerif.C16.save_pair",
             "ElfioVerif.C16.save_fail_from", "ElfioVerif.C16.save_ok_from", "ElfioVerif.C16.saveOld_same_effects",
-            "ElfioVerif.runOps_fail_of_short", "ElfioVerif.runOps_withBudget"]
+            "ElfioVerif.runStreamOps_fail_of_short", "ElfioVerif.runStreamOps_withBudget"]
 SITES = ["save_", "lsws", "lst_", "lseg", "wsd"]
 RULE = ("objects: random writer programs (0-5 extra sections of type PROGBITS/NOBITS/STRTAB/NOTE/NULL, data 0-48 bytes, "
         "alignments 0..64, 0-2 segments with member runs, optional explicit addresses) in ELF32/ELF64 x LSB/MSB, "
